@@ -569,13 +569,15 @@ def rule_F7(ctx: Ctx) -> None:
     if len(ifs) != 1:
         ctx.unknown(f, {"ifs": len(ifs)}, exp)
         return
-    ok, slot = X.same_relation(ifs[0].test, "SERIALIZE_MINIMAL_THRESHOLD is not None and len(self) >= SERIALIZE_MINIMAL_THRESHOLD")
     r1 = [s for s in ifs[0].body if isinstance(s, ast.Return)]
     r2 = [s for s in f.node.body if isinstance(s, ast.Return)]
     t1 = X.U(r1[0].value) if r1 else None
     t2 = X.U(r2[-1].value) if r2 else None
+    MIN = ("self._serialize_minimal()", "self._serialize_minimal_soln_cat()")
+    swapped = t1 == "self._serialize_full()" and t2 in MIN  # `if <full condition>: return full` ; `return minimal`
+    ok, slot = X.same_relation(ifs[0].test, "SERIALIZE_MINIMAL_THRESHOLD is not None and len(self) >= SERIALIZE_MINIMAL_THRESHOLD", neg=swapped)
     slot.update({"then": t1, "else": t2})
-    good = ok is True and t1 in ("self._serialize_minimal()", "self._serialize_minimal_soln_cat()") and t2 == "self._serialize_full()"
+    good = ok is True and ((t1 in MIN and t2 == "self._serialize_full()") or swapped)
     ctx.judge(f, good if ok is not None else None, slot, exp, "threshold comparison differs: a boundary-size dataset takes the other format")
 
 
